@@ -659,6 +659,29 @@ class Statics:
             self.ob(pid, q, "manifest-before-chain", names == ["walk_child_histories", "write_new_generation", "write_chain"],
                     f"order of effects in commit is {names}", order[0][0] if order else None, kind="crash")
             self.obs[-1]["props"] = ["C15", "C06", "C08"]
+        # first generation of a new history: the ascmhl folder must never be visible without its chain file, because the
+        # loader refuses such a folder (exit 32).  Refuted on the pinned tree: recorded finding C15-first-generation-interrupted
+        qw, ql = "ascmhl.hashlist_xml_parser.write_hash_list", "ascmhl.history.MHLHistory.load_from_path"
+        fw, fl, fc = self.repo.funcs.get(qw), self.repo.funcs.get(ql), self.repo.funcs.get("ascmhl.generator.MHLGenerationCreationSession.commit")
+        if fw is not None and fl is not None and fc is not None:
+            mk = [n for n in ast.walk(fw.node) if isinstance(n, ast.Call) and isinstance(n.func, ast.Attribute)
+                  and self.dotted(n.func, fw.module) in ("os.mkdir", "os.makedirs") and n.args]
+            final_folder = [n for n in mk if self.canon(n.args[0], fw) == "os.path.dirname(file_path)"]
+            refuses = any(isinstance(n, ast.Raise) and n.exc is not None and "NoMHLChainException" in ast.unparse(n.exc) for n in ast.walk(fl.node))
+            names = [n.func.attr for n in ast.walk(fc.node) if isinstance(n, ast.Call) and isinstance(n.func, ast.Attribute) and n.func.attr in ("write_new_generation", "write_chain")]
+            manifest_first = names[:2] == ["write_new_generation", "write_chain"]
+            if mk and not final_folder:
+                self.ob(pid, qw, "first-generation-folder-appears-with-its-chain", False,
+                        "the new ascmhl folder is created under another name than the final one: whether it becomes visible together with its chain cannot be decided here",
+                        mk[0].lineno, kind="crash", unknown=True)
+            elif final_folder and refuses and manifest_first:
+                self.ob(pid, qw, "first-generation-folder-appears-with-its-chain", False,
+                        f"write_hash_list creates the final ascmhl folder (line {final_folder[0].lineno}) before the first manifest and long before write_chain creates the chain file; "
+                        "load_from_path refuses a folder without chain file (NoMHLChainException, exit 32): a create killed in between leaves a root on which every command aborts",
+                        final_folder[0].lineno, kind="crash")
+            else:
+                self.ob(pid, qw, "first-generation-folder-appears-with-its-chain", not final_folder or not refuses, "shape not recognised", kind="crash",
+                        unknown=bool(final_folder and refuses))
         q = "ascmhl.history.MHLHistory.walk_child_histories"
         fi = self.repo.funcs.get(q)
         if fi is not None:
